@@ -285,17 +285,25 @@ def classify(rep, prop, cases_by_id, events, verdicts, hazards, my_invariants, l
 # daemon mode: the real Store with all its monitors running next to a live application writer (harness/core/daemon.go)
 
 DAEMON_INV = ["D_AckRestoreEqualsSource", "D_FinalRestoreEqualsSource", "D_EveryTxidIsACommittedState", "D_ReplicaMonotone",
-              "D_Level0OneRun", "D_LevelsContiguous", "D_SnapshotKept", "D_StopReturns", "D_NoLeakAfterStop",
+              "D_Level0OneRun", "D_LevelsContiguous", "D_SnapshotKept", "D_CatchesUp", "D_StopReturns", "D_NoLeakAfterStop",
               "D_SourceNotPinned", "D_NoPanic"]
 
 
-def daemon_cases(seed, n, first_id=0, steps=(40, 90)):
+FAULT_KINDS = ["list", "open", "openmid", "write-before", "write-partial", "write-after", "delete-before", "delete-after"]
+
+
+def daemon_cases(seed, n, first_id=0, steps=(40, 90), faults="some"):
+    """faults: "none" | "some" (every third case) | "all": storage faults armed in bursts while the monitors run"""
     rnd = random.Random(seed * 7793 + 17)
     cases = []
     for k in range(n):
+        with_faults = faults == "all" or (faults == "some" and k % 3 == 2)
         sched = [["DaemonStart"]]
         for _ in range(rnd.randint(*steps)):
             x = rnd.random()
+            if with_faults and x < 0.12:
+                sched.append(["Fault", rnd.choice(FAULT_KINDS), rnd.randint(1, 3)])
+                continue
             if x < 0.45:
                 sched.append(["AppWrite", rnd.randint(1, 6)])
             elif x < 0.55:
@@ -312,13 +320,16 @@ def daemon_cases(seed, n, first_id=0, steps=(40, 90)):
                 sched.append(["Sleep", rnd.randint(5, 80)])
             if rnd.random() < 0.5:
                 sched.append(["Sleep", rnd.randint(1, 20)])
-        if rnd.random() < 0.7:
+        if with_faults:
+            sched += [["ClearFaults"], ["Sleep", 30], ["SyncWait"], ["SyncWait"]]
+        elif rnd.random() < 0.7:
             sched.append(["SyncWait"])
         sched += [["DaemonStop"], ["Validate"], ["AuditNow"], ["RestoreCheck"], ["AppCheckpoint", "TRUNCATE"]]
         cfg = mk_cfg(seed * 1009 + k, page_size=[4096, 512, 1024][k % 3], rows=6, init_ckpt=(k % 2 == 0),
                      auto_vacuum=["none", "none", "incremental"][k % 3],
                      min_pg=[1000, 4, 2][k % 3], trunc_pg=[0, 0, 9][(k // 3) % 3], max_bytes=0)
         fast = k % 2 == 0
+        cfg["faults"] = with_faults
         cfg["daemon"] = {"monMs": rnd.choice([5, 10, 25]), "syncMs": rnd.choice([5, 10, 30]),
                          "l1Ms": 60 if fast else 150, "l2Ms": 200 if fast else 450, "snapMs": rnd.choice([250, 500, 900]),
                          "snapRetMs": rnd.choice([300, 700, 1500]), "l0RetMs": rnd.choice([50, 150, 400]), "l0CheckMs": rnd.choice([40, 90]),
@@ -332,7 +343,7 @@ def daemon_run(rep, binary, wd, cases, prop, name="daemon"):
     by_id = {c["id"]: c for c in cases}
     out, info = run_cases(binary, wd, name, [{k: c[k] for k in ("id", "cfg", "sched")} for c in cases], j=4)
     events, verdicts, hazards = judge(rep, wd, out, DAEMON_INV, prop + "-daemon", module="DaemonObs")
-    st = {"runs": len(events), "acks": 0, "acks_restored": 0, "txids_audited": 0, "txids_below_floor": 0, "compactions": 0,
+    st = {"runs": len(events), "runs_with_faults": sum(1 for c in cases if c["cfg"].get("faults")), "acks": 0, "acks_restored": 0, "txids_audited": 0, "txids_below_floor": 0, "compactions": 0,
           "snapshots": 0, "l0_deleted_runs": 0, "validator_disagrees": 0, "clean_stops": 0}
     for t, evs in events.items():
         st["acks"] += sum(1 for e in evs if e["ack"])
